@@ -74,6 +74,7 @@ class Node:
         self.last_rx_t = None
         self.last_tx_t = None
         self.rx_log = []             # (t, frame idx) of every frame handled by this node
+        self.rx_done = set()         # frame idx of every frame whose handler has returned (it may wait for a lock meanwhile)
         self.rxq = None              # set by start_rx_thread(): frames are handled by a controlled receive thread
         self.rx_lt = None
         self.rx_raised = []          # exceptions that escaped the handler on the receive thread (type names)
@@ -111,6 +112,7 @@ class Node:
         self.last_rx_t = self.bus.w.now
         self.rx_log.append((self.last_rx_t, fr.idx))
         self.handle(fr)
+        self.rx_done.add(fr.idx)
 
     def handle(self, fr):
         raise NotImplementedError
